@@ -381,12 +381,14 @@ Proof.
   induction n as [|n IH]; intros a b Ha Hb; [reflexivity|].
   destruct a.
   11: { simpl in Ha. andb_split. simpl. rewrite (py_inst_bridge n a d H H0).
-        destruct (py_inst g n a d) as [r|] eqn:Er; [|reflexivity]. simpl. apply IH; auto. eapply py_inst_cf; eauto. }
+        destruct (py_inst g n a d) as [r|] eqn:Er; [|reflexivity]. simpl.
+        apply IH; [exact (py_inst_cf g n a d r H H0 Er)|exact Hb]. }
   all: destruct b; try reflexivity.
   all: try (simpl in Hb; andb_split; simpl;
-            match goal with |- context [py_inst f n ?q ?d] => rewrite (py_inst_bridge n q d) by assumption end;
-            match goal with |- context [py_inst g n ?q ?d] =>
-              destruct (py_inst g n q d) as [r|] eqn:Er; [|reflexivity]; simpl; apply IH; auto; eapply py_inst_cf; eauto end).
+            match goal with |- context [py_inst f ?k ?q ?d] => rewrite (py_inst_bridge k q d) by assumption end;
+            match goal with |- context [py_inst g ?k ?q ?d] =>
+              destruct (py_inst g k q d) as [r|] eqn:Er; [|reflexivity]; simpl;
+              apply IH; [eapply py_inst_cf; [| |exact Er]; assumption|assumption] end).
   all: simpl in Ha, Hb; andb_split; simpl.
   - rewrite (IH a1 b1), (IH a2 b2); auto.
   - rewrite (IH a1 b1), (IH a2 b2); auto.
@@ -426,20 +428,20 @@ Proof.
   - destruct p; try discriminate. simpl.
     destruct (alookup id ret) as [v|] eqn:El.
     + rewrite (py_eq_bridge n v i (cfd_alookup _ _ _ Hr El) Hi). split; [reflexivity|].
-      intros th H. destruct (py_eq g n v i) as [e|]; [|discriminate]. simpl in H. destruct e; inversion H; subst. exact Hr.
+      intros th H. destruct (py_eq g n v i) as [e|]; [|discriminate]. simpl in H. destruct e; [inversion H; subst; exact Hr|discriminate].
     + split; [reflexivity|]. intros th H. inversion H; subst. rewrite cfd_app, Hr. simpl. rewrite Hi. reflexivity.
   - rewrite (match_single_S f _ _ _ _ Emv), (match_single_S g _ _ _ _ Emv). unfold body.
     change (f_match_simplify g) with (f_match_simplify f).
     destruct (f_match_simplify f && is_inst p).
     + rewrite (simplify_bridge n p Hp). destruct (simplify g n p) as [p'|] eqn:Es; [|split; [reflexivity|discriminate]].
-      simpl. apply IH; auto. eapply simplify_cf; eauto.
+      simpl. apply IH; [exact (simplify_cf g n p p' Hp Es)|exact Hi|exact Hr].
     + rewrite (hnf_bridge n p Hp), (hnf_bridge n i Hi).
       destruct (hnf g n p) as [hp|] eqn:Ehp; [|split; [reflexivity|discriminate]]. simpl.
       destruct (hnf g n i) as [hi|] eqn:Ehi; [|split; [reflexivity|discriminate]]. simpl.
       pose proof (hnf_cf g n p hp Hp Ehp) as Chp. pose proof (hnf_cf g n i hi Hi Ehi) as Chi.
       assert (Hk : forall c : bool, Some (if c then Some ret else @None delta) = Some (if c then Some ret else None) /\
                      forall th, Some (if c then Some ret else @None delta) = Some (Some th) -> cfd th = true).
-      { intro c. split; [reflexivity|]. intros th H. destruct c; inversion H; subst. exact Hr. }
+      { intro c. split; [reflexivity|]. intros th H. destruct c; [inversion H; subst; exact Hr|discriminate]. }
       assert (Hn : Some (@None delta) = Some None /\ forall th, Some (@None delta) = Some (Some th) -> cfd th = true).
       { split; [reflexivity|discriminate]. }
       destruct hp; destruct hi; simpl dispatch; auto; simpl in Chp, Chi; andb_split.
@@ -458,7 +460,8 @@ Theorem match_list_bridge n : forall eqs ret,
   match_list f n eqs ret = match_list g n eqs ret.
 Proof.
   induction eqs as [|e eqs IH]; intros ret He Hr; simpl; [reflexivity|].
-  simpl in He. andb_split. destruct (match_single_bridge n (fst e) (snd e) ret H1 H2 Hr) as [E1 C1]. rewrite E1.
+  simpl in He. apply andb_true_iff in He as [He1 He2]. apply andb_true_iff in He1 as [Hp Hi].
+  destruct (match_single_bridge n (fst e) (snd e) ret Hp Hi Hr) as [E1 C1]. rewrite E1.
   destruct (match_single g n (fst e) (snd e) ret) as [[ret'|]|]; simpl; try reflexivity.
   change (f_match_list_none g) with (f_match_list_none f).
   destruct (negb (f_match_list_none f) && isnil ret'); [reflexivity|]. apply IH; auto.
